@@ -332,6 +332,9 @@ where
     {
         let start_time = std::time::Instant::now();
 
+        // Runs of a previous sort() (kept when cleanup_temp_files is false) are not part of this input
+        self.temp_files.clear();
+
         // Phase 1: Generate sorted runs using replacement selection
         self.generate_runs(input)?;
 
